@@ -440,6 +440,7 @@ def _starts_with_guard(eff, key, fn, depth=0):
 
 def r11c(chk, rid='R11.c'):
     chk.rule(rid, 'argument preparation of the nested rule lists, decided by evaluation: CSSRuleRules._prepareInsertRule is evaluated on its syntax tree for every kind of argument - rule text that parses to no rule, to one rule, to two rules or to something that is no rule; a rule object; a CSSRuleList; any other object - and for indexes in and out of range: nothing is inserted while an argument is only being prepared (the one documented exception is a CSSRuleList, inserted rule by rule), text must denote exactly one rule, the index is checked before anything else')
+    chk.assume('R11.c: a temporary sheet is modelled by the list of rules its text denotes')
     from sa.absint import Evaluator, Obj, Raised, Record
 
     rel = 'cssutils/css/cssrule.py'
